@@ -24,6 +24,9 @@ type FuncResult struct {
 	eng        *Engine
 	trusted    bool
 	deadClauses []string
+	fc *FuncContract
+	entry map[types.Object]Value
+	entryState *State
 	usedContracts []string
 }
 
@@ -166,7 +169,7 @@ func (e *Engine) computeEscaping(body ast.Node) {
 }
 
 func (e *Engine) verifyFunc(fc *FuncContract) (res *FuncResult) {
-	res = &FuncResult{key: fc.key, props: fc.props, eng: e}
+	res = &FuncResult{key: fc.key, props: fc.props, eng: e, fc: fc}
 	e.fc = fc
 	e.fnName = shortFuncName(fc.fn, fc.lit != nil, fc.key)
 	res.name = e.fnName
@@ -241,6 +244,8 @@ func (e *Engine) verifyFunc(fc *FuncContract) (res *FuncResult) {
 	e.oldState = st.clone()
 	entryState := e.oldState
 	e.entryState = entryState
+	res.entry = entry
+	res.entryState = entryState
 	// the frame: fresh memory plus the modifies targets
 	{
 		f := &frame{bound: st.alloc, startSeq: e.allocSeq, all: fc.modAll}
